@@ -9,7 +9,7 @@ CONSTANTS
   KS = {1, 2}
   AddCs = {0}
   RepCs <- RepCsSmall
-  DescSel = {7,13,15,17,19}
+  DescSel = {7,13,15,17,19,21}
   Readers = {}
   ImplicitModes <- ImplicitRb
 INVARIANT InvWellFormed
